@@ -10,6 +10,14 @@ from .stages import stage
 
 
 def levellimit_inductive(tier: str) -> dict:
+    return inductive("LevelLimitInd", "apalache_levellimit", tier)
+
+
+def shade_inductive(tier: str) -> dict:
+    return inductive("ShadeInd", "apalache_shade", tier)
+
+
+def inductive(module: str, stage_name: str, tier: str) -> dict:
     def build(d: Path) -> dict:
         exe = shutil.which("apalache-mc")
         if exe is None:
@@ -18,7 +26,7 @@ def levellimit_inductive(tier: str) -> dict:
         for name, args in (("base", ["--init=Init", "--length=0"]), ("step", ["--init=IndInit", "--length=1"])):
             out = d / name
             p = subprocess.run([exe, "check", "--cinit=CInit", "--inv=IndInv", f"--out-dir={out}"] + args +
-                               [str(SPEC / "LevelLimitInd.tla")], cwd=str(d), capture_output=True, text=True, timeout=600)
+                               [str(SPEC / (module + ".tla"))], cwd=str(d), capture_output=True, text=True, timeout=600)
             txt = p.stdout + p.stderr
             shutil.rmtree(out, ignore_errors=True)
             if "The outcome is: NoError" in txt:
@@ -28,4 +36,4 @@ def levellimit_inductive(tier: str) -> dict:
             else:
                 raise MachineryError("apalache failed:\n" + txt[-1500:])
         return {"available": True, "base": res["base"], "step": res["step"]}
-    return stage("apalache_levellimit", tier, build)
+    return stage(stage_name, tier, build)
